@@ -424,7 +424,10 @@ class SequenceBasedRoutingProblem(RoutingProblem):
                 # end for
                 row_index += 1
 
-        self.linear_constraints_matrix = sparse.coo_array((aval,(arow,acol)))
+        # give the shape explicitly: trailing constraints or variables may have no entry
+        self.linear_constraints_matrix = sparse.coo_array((aval,(arow,acol)),
+            shape=(len(brhs), self.get_num_variables())
+        )
         self.linear_constraints_rhs = np.array(brhs)
         self.lin_con_built = True
         duration = time.time() - start
